@@ -570,29 +570,46 @@ PROPERTY_OPS = ("rename_name", "rename_inst", "del_inst", "del_foreign", "del_gl
 
 
 def variant_differs(C, desc, ops, variant, vseed):
-    """The property on a matrix whose objects share parts: every state must equal the state of a freshly, plainly built
-    matrix of the same definition under the same operations.  -> None or (step, what, expected, observed)"""
+    """The property on a matrix whose objects share parts: after every operation its state must equal the state of a freshly,
+    plainly built matrix of the same definition - in the canonical form of `canon` (names per reference list as multisets, ECUs
+    as a multiset): the property fixes neither positions nor the identity of a list object, and which positions an
+    implementation produces may depend on what is shared.  Both matrices are driven in lockstep; an operation given by
+    position (db.ecus[i]) addresses in the second matrix the ECU equal to the one addressed in the first.  The comparison
+    stops at the first step outside the quantifier.  -> None or (step, what, expected, observed)"""
     try:
-        ref, _, _ = run_sequence(C, desc, ops, check=False)
+        dba, _ = build(C, desc)
+        dbb, _ = build(C, desc, variant, vseed)
     except Exception:
         return None
-    try:
-        got, fails, notes = run_sequence(C, desc, ops, variant, vseed, check=False)
-    except Exception as e:
-        return (0, "raised %s: %s" % (type(e).__name__, e), None, None)
-    if got is None:
-        return None
-    for i, (a, b) in enumerate(zip(ref, got)):
-        if a is None:
-            return None
-        if b is None:
-            return (i, "operation %s raised on the %s construction only: %s" % (a[0][0], variant, fails[-1][2] if fails else ""), a[2], None)
-        if a[0] == "skip":
+    basea, baseb = Base(dba, desc), Base(dbb, desc)
+    prea, preb = state(dba, basea), state(dbb, baseb)
+    if preb != desc_state(desc):
+        return None                                   # the construction does not denote the definition
+    for i, op in enumerate(ops):
+        if not applicable(op, prea):
             continue
-        if a[2] != b[2]:
-            return (i, "after %s the matrix built with %s differs from a plainly built matrix of the same definition" % (a[0][0], variant),
-                    {"ecus": a[2]["ecus"], "frames": a[2]["frames"], "free": a[2]["free"]},
-                    {"ecus": b[2]["ecus"], "frames": b[2]["frames"], "free": b[2]["free"]})
+        if in_envelope(prea) or outside_quantifier(op, prea):
+            return None
+        opb = op
+        if op[0] in ("rename_inst", "del_inst"):
+            where = [j for j, e in enumerate(preb["ecus"]) if e == prea["ecus"][op[1]]]
+            if not where:
+                return None
+            opb = (op[0], where[0]) + tuple(op[2:])
+        try:
+            apply_op(C, dba, op)
+        except Exception:
+            return None                               # the plain matrix failing is the main stream's business
+        try:
+            apply_op(C, dbb, opb)
+        except Exception as e:
+            return (i, "operation %s raised %s on the %s construction only: %s" % (op[0], type(e).__name__, variant, e), None, None)
+        posta, postb = state(dba, basea), state(dbb, baseb)
+        ca, cb = canon(posta, 0), canon(postb, 0)
+        if ca != cb or posta["db_rest_ok"] != postb["db_rest_ok"]:
+            return (i, "after %s the matrix built with %s differs from a plainly built matrix of the same definition (names per list, ECUs)"
+                    % (op[0], variant), ca, cb)
+        prea, preb = posta, postb
     return None
 
 
